@@ -248,9 +248,10 @@ def check_reimport(ctx, mf, info, mode):
         with open(path, "wb") as f:
             f.write(buf.getvalue())
         if any(msg.type == "time_signature" and msg.numerator == 0 for tr in mf.tracks for msg in tr):
-            # time_sig_change policy with a pickup shorter than one beat writes a 0/x signature (documented TODO in the
-            # exporter); such a file is not a score the importers are specified for
-            ctx.extra["files_with_zero_numerator_signature_not_reimported"] += 1
+            # (the time_sig_change policy used to write 0/x for a pickup shorter than one beat, and load_score_midi does not
+            # return from such a file: reported instead of re-imported)
+            ctx.violation("time-signature-with-numerator-zero-written", "a 0/x time signature is no time signature; the importers do not return "
+                          "from such a file", w)
             return
         exp = sorted((Fraction(a, ppq), Fraction(b - a, ppq), p) for g in info["exp_groups"].values() for a, b, p in g)
         # performance importer
